@@ -19,7 +19,7 @@ CLAIMS = {
         "futures, keeps the window full, surfaces fatal/exhausted failures without yielding the failed index, performs at most "
         "n*(max_retries+1) submissions, and that stitching by index reproduces the serial rows. The Gallina state machine is "
         "compared exactly (yield order, submit log, in-flight set, error) with the real run_backend_parallel driven by a "
-        "deterministic executor on exhaustive short scripts and random long ones; the front-ends are run with tagged results. Extended: scripts with faults on several indices and on index 0; runner exceptions recorded as outcomes.",
+        "deterministic executor on exhaustive short scripts and random long ones; the front-ends are run with tagged results. Extended: scripts with faults on several indices and on index 0; runner exceptions recorded as outcomes. Public entry simulator.run under exhausted retry budgets.",
         COMMON_NOTE + "Not modelled: process start-up, pickling, real time-outs, tqdm. Assumes a wait() batch behaves like its "
         "futures completing one at a time.",
         "DESIGN.md §3 C13"),
@@ -138,7 +138,7 @@ CLAIMS = {
         "checked on the dense vector. The search enumerates the WHOLE outcome tree of one-step trajectories (TJM order 1, order 2, "
         "MCWF) with the probabilities the code itself uses and compares the average with the dense Lindblad solution at dt and dt/2 "
         "(local error must fall ~4x) and under reversal of the process list. PARTIAL: 'first-order consistent + symmetric "
-        "composition => global O(dt^2) at fixed step count' and the exponentials themselves are not mechanised. Extended: the dissipation sweep is modelled (every process damped exactly once at its own site; theorem + operator-identity trace of apply_dissipation against each process's own exponential), preprocess_mcwf is tied operator by operator, lists contain zero-strength entries and repeated kinds with distinct strengths. One unravelling step averaged over its branches = Lindblad generator to first order, for every list of jump operators, in every ring with an anti-involution (LinAlg/Unravel.v). Symmetric splitting exact through second order (LinAlg/Strang.v).",
+        "composition => global O(dt^2) at fixed step count' and the exponentials themselves are not mechanised. Extended: the dissipation sweep is modelled (every process damped exactly once at its own site; theorem + operator-identity trace of apply_dissipation against each process's own exponential), preprocess_mcwf is tied operator by operator, lists contain zero-strength entries and repeated kinds with distinct strengths. One unravelling step averaged over its branches = Lindblad generator to first order, for every list of jump operators, in every ring with an anti-involution (LinAlg/Unravel.v). Symmetric splitting exact through second order (LinAlg/Strang.v). Filing of listed processes by NoiseModel (NoiseNorm.v) modelled and tied.",
         COMMON_NOTE + "Axioms: standard-library real-number axioms for the theorems over R.",
         "DESIGN.md §3 C01"),
     "C03": (
@@ -149,7 +149,7 @@ CLAIMS = {
         "processes the model selects, in order (random circuits x random lists with duplicates and unsorted sites). The search "
         "enumerates the whole outcome tree of circuits with <= 2 two-qubit gates and compares the average with 'exact gate, then "
         "unit-time Lindblad channel of the local processes' at strengths g and g/2 (error must fall ~4x). PARTIAL: the O(g^2) remainder "
-        "and the exactness of gate application (C02) are not mechanised. Extended: dissipation sweep model/theorems and trace at unit step as in C01. First-order unravelling theorem as in C01.",
+        "and the exactness of gate application (C02) are not mechanised. Extended: dissipation sweep model/theorems and trace at unit step as in C01. First-order unravelling theorem as in C01. Selection rule of create_local_noise_model translated from the source.",
         COMMON_NOTE + "Axioms: standard-library real-number axioms for the theorems over R.",
         "DESIGN.md §3 C03"),
     "C06": (
@@ -172,7 +172,7 @@ CLAIMS = {
         "by mpo_utils.iterate is compared densely with U1.U2^dagger (Qiskit) for arbitrary pairs with long-range gates, swaps, cz, cp. "
         "Search: equivalence_checker.run on re-synthesised (equivalent) pairs and near-miss pairs, both argument orders, several SVD "
         "thresholds. PARTIAL: the zone-by-zone MPO construction (temporal zones, SVD re-splitting, long-range gate MPOs) is tied "
-        "numerically, not mechanised. Extended: the zone-by-zone construction is now mechanised as a schedule (Checker.v): termination, each gate of circuit 1 applied once from the left and each gate of circuit 2 once conjugated from the right in dependency-preserving orders, hence value = U1.U2^dagger in every monoid with an anti-involution; the real application log is compared with the model; the verdict expression is regenerated from the source and proved equal to the model. One left/right application on the merged MPO tensor is now a theorem (entries of G.O and O.G^dagger over any commutative ring with involution).",
+        "numerically, not mechanised. Extended: the zone-by-zone construction is now mechanised as a schedule (Checker.v): termination, each gate of circuit 1 applied once from the left and each gate of circuit 2 once conjugated from the right in dependency-preserving orders, hence value = U1.U2^dagger in every monoid with an anti-involution; the real application log is compared with the model; the verdict expression is regenerated from the source and proved equal to the model. One left/right application on the merged MPO tensor is now a theorem (entries of G.O and O.G^dagger over any commutative ring with involution). MPO x MPO product theorem; near-product and blocked long-range pairs.",
         COMMON_NOTE + "Axioms: standard-library real-number axioms.",
         "DESIGN.md §3 C04"),
     "C07": (
@@ -184,7 +184,7 @@ CLAIMS = {
         "the model. PARTIAL (searched, not mechanised): dense interpretation of the tensors, dense = sparse, SVD compression within "
         "tolerance, from_matrix round trip, boson/transmon automata, the other circuit builders (Heisenberg, 2-D snake order, "
         "Fermi-Hubbard ladders) and Lie-Trotter convergence — every builder is compared with the dense sum of its documented terms and "
-        "every circuit with exp(-iHT) at 4/8/16 steps. Extended: HamTerms (term lists of hamiltonian/ising/heisenberg; bonds, fields, coefficients, count; captured-argument tie), ChainFSM (all-lengths theorem for the Start/channel/End automaton; bose_hubbard tensors decoded against it), Transmon (exact decoding; bounded theorem for lengths 1..12), every compression schedule in the oracle. Sequential splitting first-order with commutator defect, symmetric splitting second-order (Strang.v).",
+        "every circuit with exp(-iHT) at 4/8/16 steps. Extended: HamTerms (term lists of hamiltonian/ising/heisenberg; bonds, fields, coefficients, count; captured-argument tie), ChainFSM (all-lengths theorem for the Start/channel/End automaton; bose_hubbard tensors decoded against it), Transmon (exact decoding; bounded theorem for lengths 1..12), every compression schedule in the oracle. Sequential splitting first-order with commutator defect, symmetric splitting second-order (Strang.v). Heisenberg and Fermi-Hubbard Trotter steps modelled (heis_step, fh_step) with gate-list/angle ties.",
         COMMON_NOTE,
         "DESIGN.md §3 C07"),
     "C10": (
@@ -196,7 +196,7 @@ CLAIMS = {
         "right-isometric sites right of c from any prior knowledge and that the canonical-form query lists c. Ties: the isometry the "
         "model derives after random sequences of shift/set/normalize/flip (QR and SVD) must be measured on the real tensors and its "
         "centres reported by the real check_canonical_form; the independently contracted vector must be unchanged by every operation. "
-        "PARTIAL: LAPACK returning a valid factorisation (SVD mode: within 1e-12), flip_network and zero padding are tied numerically. Extended: flip_network and zero padding are now theorems (flip_preserves_amplitudes, zero_padding_preserves); operation sequences on MPS with aliased tensors and rescaled gauges. Broken networks are outcomes of the operation sequence, not harness crashes.",
+        "PARTIAL: LAPACK returning a valid factorisation (SVD mode: within 1e-12), flip_network and zero padding are tied numerically. Extended: flip_network and zero padding are now theorems (flip_preserves_amplitudes, zero_padding_preserves); operation sequences on MPS with aliased tensors and rescaled gauges. Broken networks are outcomes of the operation sequence, not harness crashes. SVD moves on rescaled and small-norm states (found a genuine defect, fixed in /repo 1c6febf); canonical-form query as an oracle; non-trailing rank deficiency.",
         COMMON_NOTE,
         "DESIGN.md §3 C10"),
     "C12": (
